@@ -339,7 +339,7 @@ def config_tie(tie, plugin, defs):
     return real
 
 
-E2E_OPS = ("eq", "ne", "cmp", "pcmp", "cmpw", "pcmpw", "hash", "eqhash", "clone", "clonefrom", "dbg", "dbgd", "deref", "derefmut", "write")
+E2E_OPS = ("eq", "ne", "cmp", "pcmp", "cmpw", "pcmpw", "hash", "eqhash", "clone", "clonefrom", "dbg", "dbgd", "deref", "derefmut", "write", "into")
 E2E_OFFSET = 1000000
 
 
@@ -352,13 +352,15 @@ def e2e_tie(tie, plugin, defs, real, tables, obs):
     if not sel_ops:
         return
     methods = [["%s_m_%s" % (k, ty), i] for k in ("eq", "cmp", "pcmp", "hash", "clone", "dbg") for i, ty in enumerate(gen.METHOD_LEAVES)]
+    methods += [[name, mid] for name, mid in getattr(plugin, "extra_methods", [])]
+    types = list(getattr(plugin, "type_names", None) or [])
     lines = [json.dumps(l) for l in tables]
     want = {}
     for td in defs:
         r = real.get(td.id)
         if not r or r.get("outcome") != "ok" or "input" not in r:
             continue
-        lines.append(json.dumps(["defe2e", td.id + E2E_OFFSET, td.to_json(plugin.driver_traits), r["input"], methods]))
+        lines.append(json.dumps(["defe2e", td.id + E2E_OFFSET, td.to_json(plugin.driver_traits), r["input"], methods, types]))
         want[td.id] = td
     sel = [o for o in sel_ops if o[1] in want]
     for o in sel:
